@@ -14,3 +14,11 @@ func VerifExtResolver(host, port string) *ExtResolver {
 	cl.Dialer = &net.Dialer{Timeout: 5 * time.Second}
 	return &ExtResolver{cl: cl, Cfg: &dns.ClientConfig{Servers: []string{host}, Port: port, Ndots: 1, Timeout: 5, Attempts: 1}}
 }
+
+// VerifExtResolverServers builds an ExtResolver with the given list of servers
+// (tried in order; the production constructor reads /etc/resolv.conf).
+func VerifExtResolverServers(hosts []string, port string) *ExtResolver {
+	cl := new(dns.Client)
+	cl.Dialer = &net.Dialer{Timeout: 2 * time.Second}
+	return &ExtResolver{cl: cl, Cfg: &dns.ClientConfig{Servers: hosts, Port: port, Ndots: 1, Timeout: 2, Attempts: 1}}
+}
